@@ -84,12 +84,7 @@ func r04b(c *an.Ctx) {
 		if len(sets) != 1 {
 			c.Ob(key, fn.Pos(), false, "expected exactly one SetParent call in releaseTask, found %d", len(sets))
 		} else {
-			// remove the edges on which "locked by another environment" is false; SetParent must become unreachable
-			type edge struct {
-				b *ssa.BasicBlock
-				i int
-			}
-			cut := map[edge]bool{}
+			// assume "locked, by another environment": SetParent must then be unreachable
 			tests := 0
 			var envParam *ssa.Parameter
 			for _, p := range fn.Params {
@@ -97,14 +92,9 @@ func r04b(c *an.Ctx) {
 					envParam = p
 				}
 			}
-			for _, b := range fn.Blocks {
-				v, trueIdx, ok := an.BoolCondEdge(b)
-				if !ok {
-					continue
-				}
+			assume := func(v ssa.Value) (bool, bool) {
 				if _, isL := isCallNamed(v, "IsLocked"); isL {
-					cut[edge{b, 1 - trueIdx}] = true
-					tests++
+					return true, true
 				}
 				if bo, isB := v.(*ssa.BinOp); isB && (bo.Op == token.NEQ || bo.Op == token.EQL) {
 					_, l := isCallNamed(bo.X, "GetEnvironmentId")
@@ -114,17 +104,19 @@ func r04b(c *an.Ctx) {
 						other = bo.X
 					}
 					if (l || r) && envParam != nil && other == ssa.Value(envParam) {
-						// cut the "same environment" edge
-						if bo.Op == token.NEQ {
-							cut[edge{b, 1 - trueIdx}] = true
-						} else {
-							cut[edge{b, trueIdx}] = true
-						}
+						return bo.Op == token.NEQ, true
+					}
+				}
+				return false, false
+			}
+			an.Instrs(fn, func(in ssa.Instruction) {
+				if v, ok := in.(ssa.Value); ok {
+					if _, k := assume(v); k {
 						tests++
 					}
 				}
-			}
-			reach := an.ReachableCut(fn, sets[0], func(b *ssa.BasicBlock, i int) bool { return cut[edge{b, i}] })
+			})
+			reach := an.FlowAssume(fn.Blocks[0], assume).Reaches(sets[0])
 			c.Ob(key, sets[0].Pos(), !reach && tests >= 2, "a task that is locked and whose environment id differs from the releasing environment must not be released (IsLocked and environment-id tests found: %d; release reachable for a foreign locked task: %v)", tests, reach)
 		}
 	}
